@@ -658,6 +658,60 @@ func computeRenames(base, cur map[string]*fnInfo) *nameTables {
 			matchChildren(base, cur, b, c, pairs)
 		}
 	}
+	// code that moved between a closure and a named function (or between closures of different functions) keeps its
+	// operation fingerprint: pair what is still unpaired on that basis, when the pairing is unique
+	{
+		usedOld := map[string]bool{}
+		for _, b := range pairs {
+			usedOld[b] = true
+		}
+		var oldFree, curFree []string
+		for n := range base {
+			if !usedOld[n] && base[n].FP != "" && len(strings.Fields(base[n].FP)) >= 3 {
+				oldFree = append(oldFree, n)
+			}
+		}
+		for n := range cur {
+			if b, ok := pairs[n]; (!ok || strings.Contains(b, "$new")) && cur[n].FP != "" {
+				curFree = append(curFree, n)
+			}
+		}
+		sort.Strings(oldFree)
+		sort.Strings(curFree)
+		for _, o := range oldFree {
+			var cands []string
+			for _, c := range curFree {
+				if cur[c].FP == base[o].FP {
+					cands = append(cands, c)
+				}
+			}
+			if len(cands) != 1 {
+				continue
+			}
+			n := 0
+			for _, o2 := range oldFree {
+				if base[o2].FP == base[o].FP {
+					n++
+				}
+			}
+			if n != 1 {
+				continue
+			}
+			c := cands[0]
+			// re-home the nested closures of c as well
+			oldPrefix := pairs[c]
+			pairs[c] = o
+			for k, v := range pairs {
+				if oldPrefix != "" && strings.HasPrefix(v, oldPrefix+"$") {
+					pairs[k] = o + strings.TrimPrefix(v, oldPrefix)
+				} else if oldPrefix == "" && strings.HasPrefix(k, c+"$") {
+					pairs[k] = o + strings.TrimPrefix(k, c)
+				}
+			}
+			matchChildren(base, cur, o, c, pairs)
+			nt.notes = append(nt.notes, fmt.Sprintf("%s is treated as the moved %s (same operations)", c, o))
+		}
+	}
 	for c, b := range pairs {
 		if c != b {
 			fnCurToOld[c] = b
